@@ -1,1 +1,532 @@
-pub fn selftest() -> Result<(), String> { Ok(()) }
+//! R-AD: reference forward-mode automatic differentiation on name-keyed maps.
+//!
+//! A number is {v, g: name -> df/dname, h: (name,name) -> d2f/dname dname}. Derivatives are keyed
+//! by *name* (no shared layout, no ndarray), the Hessian is the full second partial (not half) and
+//! symmetric by construction (keys are ordered pairs a <= b). Rules are the textbook ones.
+//!
+//! Tolerance without guesswork: every elementary result can be multiplied by (1 + delta*xi),
+//! xi uniform in [-1,1] ("stochastic rounding noise", delta = 2^-36). The spread of several noisy runs
+//! around the exact run is an empirical bound on ~1e5 x the rounding error any step-wise accurate
+//! implementation can show at that point; monitors accept |real - ref| <= K * spread + tiny.
+
+use crate::rng::Rng;
+use std::collections::{BTreeMap, BTreeSet};
+
+pub const DELTA: f64 = 1.4551915228366852e-11; // 2^-36
+
+pub struct Noise {
+    pub rng: Rng,
+    pub delta: f64,
+}
+
+impl Noise {
+    pub fn exact() -> Self {
+        Noise { rng: Rng::new(0), delta: 0.0 }
+    }
+    pub fn noisy(seed: u64) -> Self {
+        Noise { rng: Rng::new(seed), delta: DELTA }
+    }
+    #[inline]
+    pub fn n(&mut self, x: f64) -> f64 {
+        if self.delta == 0.0 {
+            x
+        } else {
+            // continuous relative perturbation in [-delta, delta]: with +-1 signs two perturbations
+            // cancel exactly half of the time and the spread would under-estimate the conditioning
+            x * (1.0 + self.delta * (2.0 * self.rng.unit() - 1.0))
+        }
+    }
+}
+
+pub type Key2 = (String, String);
+
+pub fn key2(a: &str, b: &str) -> Key2 {
+    if a <= b {
+        (a.to_string(), b.to_string())
+    } else {
+        (b.to_string(), a.to_string())
+    }
+}
+
+#[derive(Clone, Debug, Default)]
+pub struct RNum {
+    pub v: f64,
+    pub g: BTreeMap<String, f64>,
+    pub h: BTreeMap<Key2, f64>,
+}
+
+pub fn phi(x: f64) -> f64 {
+    (-0.5 * x * x).exp() / (2.0 * std::f64::consts::PI).sqrt()
+}
+
+pub fn norm_cdf(x: f64) -> f64 {
+    use statrs::distribution::{ContinuousCDF, Normal};
+    Normal::new(0.0, 1.0).unwrap().cdf(x)
+}
+
+pub fn inv_norm_cdf(x: f64) -> f64 {
+    use statrs::distribution::{ContinuousCDF, Normal};
+    Normal::new(0.0, 1.0).unwrap().inverse_cdf(x)
+}
+
+impl RNum {
+    pub fn constant(v: f64) -> Self {
+        RNum { v, g: BTreeMap::new(), h: BTreeMap::new() }
+    }
+    /// a variable `name` with value v (unit first derivative)
+    pub fn var(v: f64, name: &str) -> Self {
+        let mut g = BTreeMap::new();
+        g.insert(name.to_string(), 1.0);
+        RNum { v, g, h: BTreeMap::new() }
+    }
+    /// from explicit first derivatives and a (symmetric) full Hessian
+    pub fn from_parts(v: f64, names: &[String], g: &[f64], h_full: Option<&[Vec<f64>]>) -> Self {
+        let mut gm = BTreeMap::new();
+        for (n, x) in names.iter().zip(g.iter()) {
+            gm.insert(n.clone(), *x);
+        }
+        let mut hm = BTreeMap::new();
+        if let Some(h) = h_full {
+            for i in 0..names.len() {
+                for j in i..names.len() {
+                    hm.insert(key2(&names[i], &names[j]), h[i][j]);
+                }
+            }
+        }
+        RNum { v, g: gm, h: hm }
+    }
+    pub fn names(&self) -> BTreeSet<String> {
+        let mut s: BTreeSet<String> = self.g.keys().cloned().collect();
+        for (a, b) in self.h.keys() {
+            s.insert(a.clone());
+            s.insert(b.clone());
+        }
+        s
+    }
+    pub fn gd(&self, n: &str) -> f64 {
+        self.g.get(n).copied().unwrap_or(0.0)
+    }
+    pub fn hd(&self, a: &str, b: &str) -> f64 {
+        self.h.get(&key2(a, b)).copied().unwrap_or(0.0)
+    }
+    /// drop second order
+    pub fn first_order(&self) -> RNum {
+        RNum { v: self.v, g: self.g.clone(), h: BTreeMap::new() }
+    }
+
+    fn union_names(a: &RNum, b: &RNum) -> Vec<String> {
+        let mut s = a.names();
+        s.extend(b.names());
+        s.into_iter().collect()
+    }
+
+    pub fn add(a: &RNum, b: &RNum, nz: &mut Noise) -> RNum {
+        let names = Self::union_names(a, b);
+        let mut r = RNum::constant(nz.n(a.v + b.v));
+        for x in &names {
+            let t = a.gd(x) + b.gd(x);
+            if a.g.contains_key(x) || b.g.contains_key(x) {
+                r.g.insert(x.clone(), nz.n(t));
+            }
+        }
+        for k in a.h.keys().chain(b.h.keys()) {
+            if !r.h.contains_key(k) {
+                let t = a.h.get(k).copied().unwrap_or(0.0) + b.h.get(k).copied().unwrap_or(0.0);
+                r.h.insert(k.clone(), nz.n(t));
+            }
+        }
+        r
+    }
+
+    pub fn neg(a: &RNum) -> RNum {
+        RNum {
+            v: -a.v,
+            g: a.g.iter().map(|(k, x)| (k.clone(), -x)).collect(),
+            h: a.h.iter().map(|(k, x)| (k.clone(), -x)).collect(),
+        }
+    }
+
+    pub fn sub(a: &RNum, b: &RNum, nz: &mut Noise) -> RNum {
+        Self::add(a, &Self::neg(b), nz)
+    }
+
+    pub fn mul(a: &RNum, b: &RNum, nz: &mut Noise) -> RNum {
+        let names = Self::union_names(a, b);
+        let mut r = RNum::constant(nz.n(a.v * b.v));
+        for x in &names {
+            let t = nz.n(a.gd(x) * b.v) + nz.n(b.gd(x) * a.v);
+            r.g.insert(x.clone(), nz.n(t));
+        }
+        for (i, x) in names.iter().enumerate() {
+            for y in names.iter().skip(i) {
+                let t = nz.n(a.hd(x, y) * b.v) + nz.n(b.hd(x, y) * a.v) + nz.n(a.gd(x) * b.gd(y)) + nz.n(a.gd(y) * b.gd(x));
+                if t != 0.0 || a.h.contains_key(&key2(x, y)) || b.h.contains_key(&key2(x, y)) {
+                    r.h.insert(key2(x, y), nz.n(t));
+                }
+            }
+        }
+        r
+    }
+
+    /// quotient rule, written directly (not as a * b^-1)
+    pub fn div(a: &RNum, b: &RNum, nz: &mut Noise) -> RNum {
+        let names = Self::union_names(a, b);
+        let q = nz.n(a.v / b.v);
+        let mut r = RNum::constant(q);
+        for x in &names {
+            let qb = nz.n(q * b.gd(x));
+            let t = nz.n(a.gd(x) - qb) / b.v;
+            r.g.insert(x.clone(), nz.n(t));
+        }
+        for (i, x) in names.iter().enumerate() {
+            for y in names.iter().skip(i) {
+                let num = a.hd(x, y) - nz.n(r.gd(x) * b.gd(y)) - nz.n(r.gd(y) * b.gd(x)) - nz.n(q * b.hd(x, y));
+                let t = nz.n(num) / b.v;
+                if t != 0.0 {
+                    r.h.insert(key2(x, y), nz.n(t));
+                }
+            }
+        }
+        r
+    }
+
+    /// chain rule for a scalar function with value f, first derivative d1 and second derivative d2 at a.v
+    pub fn chain(a: &RNum, f: f64, d1: f64, d2: f64, nz: &mut Noise) -> RNum {
+        let names: Vec<String> = a.names().into_iter().collect();
+        let mut r = RNum::constant(nz.n(f));
+        let d1 = nz.n(d1);
+        let d2 = nz.n(d2);
+        for x in &names {
+            r.g.insert(x.clone(), nz.n(d1 * a.gd(x)));
+        }
+        for (i, x) in names.iter().enumerate() {
+            for y in names.iter().skip(i) {
+                let gg = nz.n(a.gd(x) * a.gd(y));
+                let t = nz.n(d1 * a.hd(x, y)) + nz.n(d2 * gg);
+                if t != 0.0 {
+                    r.h.insert(key2(x, y), nz.n(t));
+                }
+            }
+        }
+        r
+    }
+
+    pub fn powf(a: &RNum, p: f64, nz: &mut Noise) -> RNum {
+        let f = a.v.powf(p);
+        let d1 = p * a.v.powf(p - 1.0);
+        let d2 = p * (p - 1.0) * a.v.powf(p - 2.0);
+        Self::chain(a, f, d1, d2, nz)
+    }
+    pub fn exp(a: &RNum, nz: &mut Noise) -> RNum {
+        let f = a.v.exp();
+        Self::chain(a, f, f, f, nz)
+    }
+    pub fn ln(a: &RNum, nz: &mut Noise) -> RNum {
+        Self::chain(a, a.v.ln(), 1.0 / a.v, -1.0 / (a.v * a.v), nz)
+    }
+    pub fn norm_cdf(a: &RNum, nz: &mut Noise) -> RNum {
+        let p = phi(a.v);
+        Self::chain(a, norm_cdf(a.v), p, -a.v * p, nz)
+    }
+    pub fn inv_norm_cdf(a: &RNum, nz: &mut Noise) -> RNum {
+        let y = inv_norm_cdf(a.v);
+        let p = phi(y);
+        Self::chain(a, y, 1.0 / p, y / (p * p), nz)
+    }
+    pub fn abs(a: &RNum) -> RNum {
+        if a.v < 0.0 {
+            Self::neg(a)
+        } else {
+            a.clone()
+        }
+    }
+    /// a % b = a - b * trunc(a/b), away from the jump
+    pub fn rem(a: &RNum, b: &RNum, nz: &mut Noise) -> RNum {
+        let d = (a.v / b.v).trunc();
+        let mut r = Self::sub(a, &Self::mul(&RNum::constant(d), b, nz), nz);
+        r.v = a.v % b.v; // the value is the float remainder itself
+        r
+    }
+}
+
+// ---------------------------------------------------------------------------------------------
+// comparison with the noise band
+
+/// Result of evaluating the same computation exactly and `runs` times with noise.
+pub struct Banded {
+    pub exact: RNum,
+    /// per-component max |noisy - exact|
+    pub sv: f64,
+    pub sg: BTreeMap<String, f64>,
+    pub sh: BTreeMap<Key2, f64>,
+}
+
+impl Banded {
+    pub fn new(exact: RNum) -> Self {
+        Banded { exact, sv: 0.0, sg: BTreeMap::new(), sh: BTreeMap::new() }
+    }
+    pub fn absorb(&mut self, noisy: &RNum) {
+        self.sv = self.sv.max((noisy.v - self.exact.v).abs());
+        let names: BTreeSet<String> = self.exact.g.keys().chain(noisy.g.keys()).cloned().collect();
+        for n in names {
+            let d = (noisy.gd(&n) - self.exact.gd(&n)).abs();
+            let e = self.sg.entry(n).or_insert(0.0);
+            if d > *e || d.is_nan() {
+                *e = d;
+            }
+        }
+        let keys: BTreeSet<Key2> = self.exact.h.keys().chain(noisy.h.keys()).cloned().collect();
+        for k in keys {
+            let d = (noisy.h.get(&k).copied().unwrap_or(0.0) - self.exact.h.get(&k).copied().unwrap_or(0.0)).abs();
+            let e = self.sh.entry(k).or_insert(0.0);
+            if d > *e || d.is_nan() {
+                *e = d;
+            }
+        }
+    }
+    pub fn spread_g(&self, n: &str) -> f64 {
+        self.sg.get(n).copied().unwrap_or(0.0)
+    }
+    pub fn spread_h(&self, a: &str, b: &str) -> f64 {
+        self.sh.get(&key2(a, b)).copied().unwrap_or(0.0)
+    }
+    /// largest magnitude among value, gradient and (if `second`) Hessian entries
+    pub fn norm_inf(&self, second: bool) -> f64 {
+        let mut m = self.exact.v.abs();
+        for x in self.exact.g.values() {
+            m = m.max(x.abs());
+        }
+        if second {
+            for x in self.exact.h.values() {
+                m = m.max(x.abs());
+            }
+        }
+        m
+    }
+    pub fn total_spread(&self, second: bool) -> f64 {
+        let mut s = self.sv;
+        for x in self.sg.values() {
+            s += x;
+        }
+        if second {
+            for x in self.sh.values() {
+                s += x;
+            }
+        }
+        s
+    }
+    /// ill-conditioned: the noise moves the result by more than 1e-7 of its size, or not finite
+    pub fn ill_conditioned(&self, second: bool) -> bool {
+        let t = self.total_spread(second);
+        let n = self.norm_inf(second);
+        !(t.is_finite() && n.is_finite()) || t > 1e-7 * n.max(1e-300)
+    }
+}
+
+pub const BAND_K: f64 = 16.0;
+pub const BAND_REL: f64 = 64.0 * f64::EPSILON;
+
+/// |real - ref| within K * spread + 64 eps |ref| (+ floor relative to the overall scale)
+pub fn within(real: f64, reference: f64, spread: f64, scale: f64) -> bool {
+    if real == reference {
+        return true;
+    }
+    if !(real.is_finite() && reference.is_finite()) {
+        return real.is_nan() && reference.is_nan();
+    }
+    let diff = (real - reference).abs();
+    let excess = diff - BAND_REL * reference.abs();
+    if spread > 0.0 && excess > 0.0 {
+        // calibration: how much of the band do correct results use (reported as evidence)
+        MAX_BAND_USE.with(|m| {
+            if excess / spread > m.get() {
+                m.set(excess / spread)
+            }
+        });
+    }
+    diff <= BAND_K * spread + BAND_REL * reference.abs() + 1e-15 * f64::EPSILON.sqrt() * scale
+}
+
+thread_local! {
+    pub static MAX_BAND_USE: std::cell::Cell<f64> = const { std::cell::Cell::new(0.0) };
+}
+
+/// largest observed |real-ref| / spread (beyond the 64 eps relative part) on this thread
+pub fn max_band_use() -> f64 {
+    MAX_BAND_USE.with(|m| m.get())
+}
+
+// ---------------------------------------------------------------------------------------------
+// self-test of the rules against finite differences of the value function
+
+#[derive(Clone, Debug)]
+enum T {
+    X(usize),
+    C(f64),
+    Add(Box<T>, Box<T>),
+    Sub(Box<T>, Box<T>),
+    Mul(Box<T>, Box<T>),
+    Div(Box<T>, Box<T>),
+    Pow(Box<T>, f64),
+    Exp(Box<T>),
+    Ln(Box<T>),
+    Ncdf(Box<T>),
+    Icdf(Box<T>),
+    Abs(Box<T>),
+    Neg(Box<T>),
+    Rem(Box<T>, Box<T>),
+}
+
+fn ev(t: &T, x: &[f64], nz: &mut Noise) -> RNum {
+    match t {
+        T::X(i) => RNum::var(x[*i], &format!("x{}", i)),
+        T::C(c) => RNum::constant(*c),
+        T::Add(a, b) => RNum::add(&ev(a, x, nz), &ev(b, x, nz), nz),
+        T::Sub(a, b) => RNum::sub(&ev(a, x, nz), &ev(b, x, nz), nz),
+        T::Mul(a, b) => RNum::mul(&ev(a, x, nz), &ev(b, x, nz), nz),
+        T::Div(a, b) => RNum::div(&ev(a, x, nz), &ev(b, x, nz), nz),
+        T::Pow(a, p) => RNum::powf(&ev(a, x, nz), *p, nz),
+        T::Exp(a) => RNum::exp(&ev(a, x, nz), nz),
+        T::Ln(a) => RNum::ln(&ev(a, x, nz), nz),
+        T::Ncdf(a) => RNum::norm_cdf(&ev(a, x, nz), nz),
+        T::Icdf(a) => RNum::inv_norm_cdf(&ev(a, x, nz), nz),
+        T::Abs(a) => RNum::abs(&ev(a, x, nz)),
+        T::Neg(a) => RNum::neg(&ev(a, x, nz)),
+        T::Rem(a, b) => RNum::rem(&ev(a, x, nz), &ev(b, x, nz), nz),
+    }
+}
+
+fn fval(t: &T, x: &[f64]) -> f64 {
+    ev(t, x, &mut Noise::exact()).v
+}
+
+/// Richardson-extrapolated central differences
+fn fd1(t: &T, x: &[f64], i: usize, h: f64) -> f64 {
+    let d = |h: f64| {
+        let mut a = x.to_vec();
+        let mut b = x.to_vec();
+        a[i] += h;
+        b[i] -= h;
+        (fval(t, &a) - fval(t, &b)) / (2.0 * h)
+    };
+    (4.0 * d(h / 2.0) - d(h)) / 3.0
+}
+
+fn fd2(t: &T, x: &[f64], i: usize, j: usize, h: f64) -> f64 {
+    let d = |h: f64| {
+        if i == j {
+            let mut a = x.to_vec();
+            let mut b = x.to_vec();
+            a[i] += h;
+            b[i] -= h;
+            (fval(t, &a) - 2.0 * fval(t, x) + fval(t, &b)) / (h * h)
+        } else {
+            let f = |si: f64, sj: f64| {
+                let mut a = x.to_vec();
+                a[i] += si * h;
+                a[j] += sj * h;
+                fval(t, &a)
+            };
+            (f(1.0, 1.0) - f(1.0, -1.0) - f(-1.0, 1.0) + f(-1.0, -1.0)) / (4.0 * h * h)
+        }
+    };
+    (4.0 * d(h / 2.0) - d(h)) / 3.0
+}
+
+pub fn selftest() -> Result<(), String> {
+    let b = |t: T| Box::new(t);
+    let x = [0.7, 1.3, 2.1];
+    // smooth compositions exercising every rule at a well-separated point
+    let trees: Vec<(&str, T)> = vec![
+        ("mul/add", T::Add(b(T::Mul(b(T::X(0)), b(T::X(1)))), b(T::X(2)))),
+        ("div", T::Div(b(T::Mul(b(T::X(0)), b(T::X(2)))), b(T::Add(b(T::X(1)), b(T::X(0)))))),
+        ("pow", T::Pow(b(T::Add(b(T::X(0)), b(T::Mul(b(T::X(1)), b(T::X(2)))))), 1.7)),
+        ("pow-neg", T::Pow(b(T::Add(b(T::X(0)), b(T::X(1)))), -2.0)),
+        ("exp", T::Exp(b(T::Sub(b(T::Mul(b(T::X(0)), b(T::X(1)))), b(T::X(2)))))),
+        ("ln", T::Ln(b(T::Add(b(T::Mul(b(T::X(0)), b(T::X(0)))), b(T::X(2)))))),
+        ("ncdf", T::Ncdf(b(T::Sub(b(T::Mul(b(T::X(0)), b(T::X(1)))), b(T::C(0.4)))))),
+        ("icdf", T::Icdf(b(T::Div(b(T::X(0)), b(T::Add(b(T::X(1)), b(T::X(2)))))))),
+        ("abs-neg", T::Abs(b(T::Sub(b(T::X(0)), b(T::Mul(b(T::X(1)), b(T::X(2)))))))),
+        ("neg", T::Neg(b(T::Mul(b(T::X(0)), b(T::Exp(b(T::X(1)))))))),
+        ("rem", T::Rem(b(T::Mul(b(T::X(2)), b(T::X(2)))), b(T::Add(b(T::X(0)), b(T::X(1)))))),
+        ("mix", T::Div(b(T::Exp(b(T::Mul(b(T::X(0)), b(T::Ln(b(T::X(2)))))))), b(T::Pow(b(T::Add(b(T::X(1)), b(T::C(2.0)))), 0.5)))),
+    ];
+    for (name, t) in trees.iter() {
+        let r = ev(t, &x, &mut Noise::exact());
+        for i in 0..3 {
+            let n = format!("x{}", i);
+            let fd = fd1(t, &x, i, 1e-3);
+            let ad = r.gd(&n);
+            if (fd - ad).abs() > 1e-7 * (1.0 + ad.abs()) {
+                return Err(format!("refad selftest {}: d/dx{} AD {} vs FD {}", name, i, ad, fd));
+            }
+            for j in i..3 {
+                let m = format!("x{}", j);
+                let fd = fd2(t, &x, i, j, 2e-3);
+                let ad = r.hd(&n, &m);
+                if (fd - ad).abs() > 2e-5 * (1.0 + ad.abs()) {
+                    return Err(format!("refad selftest {}: d2/dx{}dx{} AD {} vs FD {}", name, i, j, ad, fd));
+                }
+            }
+        }
+        // noisy runs stay within a sane distance of the exact run
+        let mut bd = Banded::new(r.clone());
+        for s in 0..8 {
+            bd.absorb(&ev(t, &x, &mut Noise::noisy(1000 + s)));
+        }
+        if bd.ill_conditioned(true) {
+            return Err(format!("refad selftest {}: unexpectedly ill-conditioned", name));
+        }
+        if bd.total_spread(true) == 0.0 {
+            return Err(format!("refad selftest {}: noise had no effect", name));
+        }
+    }
+    // random trees: AD vs FD
+    let mut rng = Rng::new(12345);
+    let mut checked = 0;
+    for _ in 0..400 {
+        let t = rand_tree(&mut rng, 3);
+        let xs = [rng.uniform(0.5, 2.0), rng.uniform(0.5, 2.0), rng.uniform(0.5, 2.0)];
+        let r = ev(&t, &xs, &mut Noise::exact());
+        if !r.v.is_finite() || r.v.abs() > 1e4 {
+            continue;
+        }
+        let mut ok = true;
+        for i in 0..3 {
+            let fd = fd1(&t, &xs, i, 1e-4);
+            let ad = r.gd(&format!("x{}", i));
+            if !fd.is_finite() {
+                ok = false;
+                break;
+            }
+            let scale = 1.0 + ad.abs() + r.g.values().fold(0.0f64, |m, x| m.max(x.abs()));
+            if (fd - ad).abs() > 1e-5 * scale {
+                return Err(format!("refad random selftest: {:?} at {:?}: d/dx{} AD {} vs FD {}", t, xs, i, ad, fd));
+            }
+        }
+        if ok {
+            checked += 1;
+        }
+    }
+    if checked < 100 {
+        return Err(format!("refad random selftest: only {} trees checked", checked));
+    }
+    Ok(())
+}
+
+fn rand_tree(r: &mut Rng, depth: usize) -> T {
+    if depth == 0 || r.chance(0.2) {
+        return if r.chance(0.8) { T::X(r.usize(3)) } else { T::C(r.uniform(0.5, 2.0)) };
+    }
+    let a = Box::new(rand_tree(r, depth - 1));
+    match r.below(8) {
+        0 => T::Add(a, Box::new(rand_tree(r, depth - 1))),
+        1 => T::Sub(Box::new(T::Add(a, Box::new(T::C(5.0)))), Box::new(rand_tree(r, depth - 1))),
+        2 => T::Mul(a, Box::new(rand_tree(r, depth - 1))),
+        3 => T::Div(a, Box::new(T::Add(Box::new(T::Abs(Box::new(rand_tree(r, depth - 1)))), Box::new(T::C(1.0))))),
+        4 => T::Exp(Box::new(T::Div(a, Box::new(T::C(50.0))))),
+        5 => T::Ln(Box::new(T::Add(Box::new(T::Mul(a.clone(), a)), Box::new(T::C(1.0))))),
+        6 => T::Ncdf(Box::new(T::Div(a, Box::new(T::C(20.0))))),
+        _ => T::Pow(Box::new(T::Add(Box::new(T::Mul(a.clone(), a)), Box::new(T::C(0.5)))), r.uniform(-1.5, 2.5)),
+    }
+}
